@@ -36,6 +36,54 @@ type c13Prog struct {
 	Stmts []*c13Stmt `@@*`
 }
 
+// c13Long: "a"+ @"x" | "a"+ @"y" on more than MaxLookahead tokens: an explicit lookahead larger than the
+// input succeeds, so must the unlimited (negative) one, which is larger than any number.
+type c13Long struct {
+	X string `  "a"+ @"x"`
+	Y string `| "a"+ @"y"`
+}
+
+func c13LongLookahead(c *mon.Child) {
+	key := "long-lookahead"
+	if !c.Want(key) {
+		return
+	}
+	n := participle.MaxLookahead + 1
+	in := strings.Repeat("a ", n) + "y"
+	c.Begin(key, fmt.Sprintf("\"a\"+ @\"x\" | \"a\"+ @\"y\" <- %d tokens", n+1))
+	defer c.End(key)
+	ks := []int{2 * n, participle.MaxLookahead, -1, -7}
+	firstOK := -1
+	for i, k := range ks {
+		p, err := participle.Build[c13Long](participle.UseLookahead(k))
+		if err != nil {
+			c.Violation("", key, "long-lookahead grammar does not build: "+err.Error(), nil)
+			return
+		}
+		c.Eval(1)
+		var v *c13Long
+		var perr error
+		if pn, pv, _ := mon.Guard(func() { v, perr = p.ParseString("", in) }); pn {
+			c.Violation("", key, "parse panicked: "+pv, nil)
+			return
+		}
+		ok := perr == nil && v != nil && v.Y == "y" && v.X == ""
+		if ok && firstOK < 0 {
+			firstOK = i
+		}
+		// order of "size": MaxLookahead < 2n < unlimited (negative)
+		if k < 0 && !ok {
+			if firstOK >= 0 {
+				c.Violation("", key, fmt.Sprintf("parses with lookahead=%d but fails with the unlimited lookahead=%d (%v) | grammar: \"a\"+ @\"x\" | \"a\"+ @\"y\" | input: %d x \"a\" then \"y\"", ks[firstOK], k, perr, n), nil)
+			}
+		}
+	}
+	if firstOK >= 0 {
+		c.Nontrivial("long-lookahead")
+		c.Feature("inputs_needing_more_than_MaxLookahead_tokens_of_lookahead")
+	}
+}
+
 func c13Nested(c *mon.Child) {
 	type built struct {
 		k int
